@@ -23,7 +23,7 @@ def run(ctx):
                 "seeded random trees (1-4 layers, <=40 nodes), 100-call histories, random game x language, snapshot after "
                 "every call, decided by TLC. Non-trivial = a mutation, a localized call, or a query that finds something.")
     ev, rec = fsc.run_fs(ctx, "c12", lambda e: e["op"] not in fsc.LIST_OPS, owns, profile="c12", lz=True,
-                          unsupported_games=True, sandwich="c12")
+                          unsupported_games=True, sandwich="c12", big_payloads=True)
     both = ev + rec
     ctx.extra["typed_helper_calls"] = sum(1 for e in both if e["op"] in fsc.TYPED_READS or e["op"].startswith("write_"))
     ctx.extra["typed_helper_successes"] = sum(1 for e in both if e["op"] in fsc.TYPED_READS and e["res"].get("ok"))
